@@ -1,0 +1,25 @@
+// Copyright © 2024 Attestant Limited.
+// Licensed under the Apache License, Version 2.0 (the "License");
+// you may not use this file except in compliance with the License.
+// You may obtain a copy of the License at
+//
+//     http://www.apache.org/licenses/LICENSE-2.0
+//
+// Unless required by applicable law or agreed to in writing, software
+// distributed under the License is distributed on an "AS IS" BASIS,
+// WITHOUT WARRANTIES OR CONDITIONS OF ANY KIND, either express or implied.
+// See the License for the specific language governing permissions and
+// limitations under the License.
+
+//go:build !verif
+
+// Package verifhook provides instrumentation points for verification harnesses.
+// Without the "verif" build tag every function in this package is a no-op.
+package verifhook
+
+import "context"
+
+// Point marks an instrumentation point.  It always returns nil without the "verif" build tag.
+func Point(_ context.Context, _ string, _ ...any) error {
+	return nil
+}
